@@ -144,6 +144,10 @@ fn run_stmt_threaded<P: PipelineRuntime>(
         Err(e) => return vec![err_json("parse", &e)],
     };
     let mut out = Vec::new();
+    if stmts.is_empty() {
+        // An empty statement list (";", whitespace) is a no-op that succeeds.
+        return vec![json!({"outcome": "rows", "schema": [], "btypes": [], "variants": [], "rows": [], "batch_rows": [], "empty": true})];
+    }
     for stmt in stmts {
         let r = futures::executor::block_on(async {
             if let Err(e) = sess.prepare("", stmt) {
@@ -190,6 +194,9 @@ fn run_stmt_det(
         Err(e) => return vec![err_json("parse", &e)],
     };
     let mut out = Vec::new();
+    if stmts.is_empty() {
+        return vec![json!({"outcome": "rows", "schema": [], "btypes": [], "variants": [], "rows": [], "batch_rows": [], "empty": true})];
+    }
     for stmt in stmts {
         let first_task = det.inner.lock().tasks.len();
         let pre = futures::executor::block_on(async {
